@@ -400,6 +400,38 @@ def apply_substs(text, substs, fired, tag='R1'):
     return text
 
 
+def rule_r11_bind_closure(text, fired, methods):
+    """R11: `recv.m(|args| body)` -> `recv.m({ let r11_clos = |args| body; r11_clos })` for the declared methods m:
+    the closure argument gets a name, so that proof text can speak about its contract (call_ensures) before the call.
+    The value passed is unchanged."""
+    for m in methods:
+        pos = 0
+        while True:
+            mm = re.search(r'\.\s*' + re.escape(m) + r'\s*\(\s*(?=\|)', text[pos:])
+            if not mm:
+                break
+            a = pos + mm.end()
+            depth = 0
+            k = a
+            while k < len(text):
+                ch = text[k]
+                if ch in '([{':
+                    depth += 1
+                elif ch in ')]}':
+                    if depth == 0:
+                        break
+                    depth -= 1
+                k += 1
+            if k >= len(text):
+                raise Unsupported('R11: unbalanced call of %s' % m)
+            arg = text[a:k]
+            new = '{ let r11_clos = ' + arg.rstrip() + '; r11_clos }'
+            text = text[:a] + new + text[k:]
+            fired['R11'] = fired.get('R11', 0) + 1
+            pos = a + len(new)
+    return text
+
+
 def rule_r10_mut_self(text, fired):
     """R10: fn f(mut self, ..) { .. self .. }  ->  fn f(self, ..) { let mut this = self; .. this .. }  (alpha-renaming)"""
     code = blank_noncode(text)
